@@ -69,13 +69,13 @@ fn resolve_input(spec: &SchemaSpec, dim: usize, i: &InSpec) -> Vec<f64> {
 
 fn strategy(tier: Tier) -> BoxedStrategy<Case> {
     let maxdim = tier.pick(6usize, 8usize);
-    let schema = (schema_spec(), 1usize..=maxdim)
+    let schema = (schema_spec(), sized(maxdim, maxdim + 4))
         .prop_flat_map(|(spec, d)| {
             let dim = d.max(spec.min_dim());
             (Just(spec), Just(dim), proptest::collection::vec(in_spec(dim), 6..14))
         })
         .prop_map(|(spec, dim, inputs)| Case::Schema { dim, spec, inputs });
-    let from_poly = (1usize..=3, 1usize..=3)
+    let from_poly = (sized(3, 5), sized(3, 4))
         .prop_flat_map(|(n, p)| (poly_spec(n, 1, 5), aff(p, n), prop::option::weighted(0.6, aff(p, n)), proptest::collection::vec(point_spec(n), 6..12)))
         .prop_map(|(p, ft, ff, points)| Case::FromPoly { p, ft, ff, points });
     let slice = (2usize..=4, 1usize..=2)
